@@ -263,6 +263,19 @@ def case_simple_batch(ctx, lines, expect, u, b, method, seed, int_seed=False):
             lines.append(" ".join(f"choicenr {size} {fl(c['p'])} {len(c['inner'])} ".split() + [fl(r) for r in c["inner"]]))
             expect.append(("picks " + " ".join(str(int(x)) for x in np.asarray(c["out"]).ravel()) + " | enough=1", dict(case, sub="choice-without-replacement")))
             ctx.count(f"choice_without_replacement_rounds_{min(len(c['inner']), 4)}")
+            # (the model sums right to left, numpy left to right / pairwise: only inputs on which both give the same
+            # double are compared end to end; the choice itself is compared above in every case)
+            vals = [x for x in flat if not np.isnan(x)]
+            rsum = 0.0
+            for x in reversed(vals):
+                rsum = x + rsum
+            if method == "proportional" and u.ndim == 1 and f2bits(rsum) != f2bits(np.nansum(flat)):
+                ctx.count("simple_batch_proportional_end_to_end_skipped_summation_order")
+            elif method == "proportional" and u.ndim == 1:
+                # the whole proportional branch as a function of the utilities and the uniform draws alone
+                lines.append(" ".join(f"simplebatchprop {int(b)} {fl(flat)} {len(c['inner'])} ".split() + [fl(r) for r in c["inner"]]))
+                expect.append((impl, dict(case, sub="proportional-end-to-end")))
+                ctx.count("simple_batch_proportional_end_to_end")
     # property oracle -----------------------------------------------------------------------
     k = min(b, int(np.sum(~np.isnan(flat))))
     bad = None
